@@ -293,6 +293,11 @@ db.Open = zcheck(1) + check(2)
     for name, src, expect in progs:
         for vi, vec in enumerate(VECS if (tier == "thorough" or name.startswith(("names:", "fixed:"))) else VECS[:3]):
             items.append(dict(name=f"{name}@{vi}", sources=src, opts=vec, tier=tier, expect=expect))
+    # the version note is added after label removal: a program in which no line has room for it
+    from . import c02
+
+    for vi, vec in enumerate(({"append_version": True, "original_code_as_comment": True}, {"append_version": True, "original_code_as_comment": True, "inline_functions": False})):
+        items.append(dict(name=f"fixed:all_lines_commented@note{vi}", sources=c02.ALL_LINES_COMMENTED, opts=vec, tier=tier, expect=None))
     results = harness.pmap(task, items, placeholder=lambda it, st, d: dict(name=it["name"], status=st, detail=d, problems=[], labels=0, jumps=0))
     nontrivial = 0
     labels = jumps = 0
